@@ -2,6 +2,7 @@ package pongo2
 
 import (
 	"fmt"
+	"math"
 	"reflect"
 	"sort"
 	"strconv"
@@ -153,18 +154,33 @@ func (v *Value) Integer() int {
 	case reflect.Uint, reflect.Uint8, reflect.Uint16, reflect.Uint32, reflect.Uint64:
 		return int(v.getResolvedValue().Uint())
 	case reflect.Float32, reflect.Float64:
-		return int(v.getResolvedValue().Float())
+		return floatToInt(v.getResolvedValue().Float())
 	case reflect.String:
 		// Try to convert from string to int (base 10)
 		f, err := strconv.ParseFloat(v.getResolvedValue().String(), 64)
 		if err != nil {
 			return 0
 		}
-		return int(f)
+		return floatToInt(f)
 	default:
 		logf("Value.Integer() not available for type: %s\n", v.getResolvedValue().Kind().String())
 		return 0
 	}
+}
+
+// floatToInt converts like int(f) for every f an int can hold and saturates beyond
+// that (the Go conversion of an out-of-range float is implementation-defined: on
+// amd64 it yields the smallest int also for huge positive values). NaN gives 0.
+func floatToInt(f float64) int {
+	switch {
+	case f != f:
+		return 0
+	case f >= math.MaxInt:
+		return math.MaxInt
+	case f <= math.MinInt:
+		return math.MinInt
+	}
+	return int(f)
 }
 
 // Float returns the underlying value as a float (converts the underlying
